@@ -70,6 +70,9 @@ def run(ctx):
             extra += fs.direct_call_failures(c)
     r3 = adapters.run_adapter(fcr.CallRunAdapter(), fcr.gen_callrun(tier, rng), rng)
     nq, fq = qcconfig_failures(rng, 60 if tier == "quick" else 600)
+    n_re, f_re = fs.object_reuse_failures(rng, 40 if tier == "quick" else 400)
+    fq += f_re
+    nq += n_re
     r1["failures"] += extra + fq
     r1["evaluations"] += nq
     return adapters.merge(
